@@ -197,6 +197,9 @@ pub fn install_panic_hook() {
         } else {
             "<non-string panic payload>".into()
         };
+        if std::env::var_os("TVH_BACKTRACE").is_some() {
+            eprintln!("panic at {loc}: {msg}\n{}", std::backtrace::Backtrace::force_capture());
+        }
         LAST_PANIC.with(|p| *p.borrow_mut() = Some((loc, msg)));
     }));
 }
